@@ -2,7 +2,7 @@
    canonical encoding of a message followed by arbitrary bytes, the reference decoder
    returns the message (up to computed members), consumes exactly the message, and the
    specification lays the returned message out to the same bytes. *)
-From FP Require Import Ref Typed BytesLemmas Paths RefEnc EqvSoundDec Validate.
+From FP Require Import Ref Typed BytesLemmas Paths RefEnc EqvSoundDec Validate DecRepeat.
 From Coq Require Import Lia.
 Open Scope list_scope.
 
@@ -230,7 +230,7 @@ Section RefDec.
         exists (enc_int w (cfg_le M) (N.of_nat (length s)) ++ s), (VStr s). split; [reflexivity|]. split; [|reflexivity].
         intros ms rest. cbn [dec_elem opt_w]. unfold le_of, cfg_le. rewrite <- !app_assoc, dec_int_enc_int.
         unfold fits in Ef. apply N.ltb_lt in Ef. rewrite N.mod_small by exact Ef.
-        unfold guard_skips. cbn [andb]. rewrite Nat2N.id, take_app. reflexivity.
+        unfold guard_skips. cbn [andb]. rewrite take_n_eq, Nat2N.id, take_app. reflexivity.
       - destruct v; discriminate.
       - destruct v; discriminate.
       - (* AObj *)
@@ -451,7 +451,7 @@ Section RefDec.
         split; [rewrite Hb, <- app_assoc; reflexivity|]. split; [discriminate|]. split; [|exact Hu].
         intros vsd _ rest. cbn [dec_elem opt_w]. unfold le_of, cfg_le. rewrite <- app_assoc, dec_int_enc_int.
         unfold fits in Efit. apply N.ltb_lt in Efit. rewrite N.mod_small by exact Efit.
-        unfold guard_skips. cbn [andb]. rewrite Nat2N.id, Hd. reflexivity.
+        unfold guard_skips. cbn [andb]. rewrite dec_repeat_n_eq, Nat2N.id, Hd. reflexivity.
       - destruct (f_attr f) as [t|len fp| |tg lt|alg t|iner pn rf inl|k0 ka pairs|] eqn:Ea; try discriminate.
         + (* ABasic *) intros H. assert (Hnm : not_match (f_attr f)) by (rewrite Ea; exact I).
           rewrite <- Ea in H, Ht. destruct (elem_dec f v buf b Hin Hnm H Ht) as [seg [v' [Hb [Hd Hu]]]].
